@@ -23,21 +23,21 @@ NA = {
 CHECKS = {
  'C08': {
   'category': 'exploration',
-  'text': "History-driven simulation (fault-free): a Hypothesis rule-based state machine, seeded per sub-seed, generates sequences of conditional directives, symbol definitions from all three sources, marker lines, constant/label/zone definitions with later uses, mute changes and ill-formed directives; a small reference model (frames {enclosing active, branch taken, selected}, conditions evaluated once when reached) is stepped in lockstep and after EVERY operation the prefix is assembled by the real CLI in the simulator and compared (exit status, sparse image). Seeded search over histories, not enumeration: evidence, not proof.",
+  'text': "History-driven simulation (fault-free): a Hypothesis rule-based state machine, seeded per sub-seed, generates sequences of conditional directives, symbol definitions from all three sources, marker lines, constant/label/zone definitions with later uses, mute changes and ill-formed directives; a small reference model (frames {enclosing active, branch taken, selected}, conditions evaluated once when reached) is stepped in lockstep and after EVERY operation the prefix is assembled by the real CLI in the simulator and compared (exit status, sparse image). Idiom rules bias the search towards definitions that flip their own condition, late definitions, mute toggles and whole chains in unselected code; sampled complete histories are re-assembled by real interpreters (real hash seeds, python -O/-OO). Seeded search over histories, not enumeration: evidence, not proof.",
   'design_ref': 'DESIGN.md section 4 (C08)',
   'note': "Trusts the 60-line reference model and the exclusions listed in the evidence assumptions (undefined symbols in #if, string comparisons, unclosed chains, conditionals around #include which C17 covers).",
   'technique': 'deterministic simulation, history-driven: seeded Hypothesis state machine + executable reference model checked after every operation against the real CLI run in a forked simulated process',
  },
  'C09': {
   'category': 'exploration',
-  'text': "History-driven simulation (fault-free): a seeded Hypothesis state machine generates definitions arriving from the ISA file, the command line and #define (chains, diamonds, cycles, redefinitions), constants whose names collide with symbol names (prefix/suffix/infix/identical-but-defined-later) and use lines over whatever is usable at that moment; a whole-word fixpoint substitution model is stepped in lockstep; after every operation the prefix is assembled by the real CLI in the simulator and exit status and emitted bytes must equal the model's; redefinitions and cyclic uses are side probes that must be rejected.",
+  'text': "History-driven simulation (fault-free): a seeded Hypothesis state machine generates definitions arriving from the ISA file, the command line and #define (chains, diamonds, cycles, redefinitions), constants whose names collide with symbol names (prefix/suffix/infix/identical-but-defined-later) and use lines over whatever is usable at that moment; a whole-word fixpoint substitution model is stepped in lockstep; after every operation the prefix is assembled by the real CLI in the simulator and exit status and emitted bytes must equal the model's; redefinitions (incl. identical text, duplicate -D, -D vs ISA) and cyclic uses are side probes that must be rejected; histories run under seeded set-iteration orders, with hex-named environment variables, CR LF sources and blanks in -D; sampled complete histories are re-assembled by real interpreters (real hash seeds, python -O/-OO).",
   'design_ref': 'DESIGN.md section 4 (C09)',
   'note': "Trusts the substitution model and its expression evaluator (literals, +, *, parentheses only).",
   'technique': 'deterministic simulation, history-driven: seeded Hypothesis state machine + whole-word substitution reference model checked after every operation against the real CLI run in a forked simulated process',
  },
  'C14': {
   'category': 'fault_enumeration',
-  'text': "Per generated (ISA, program, options) world the check enumerates EVERY single I/O fault over every file-system event of the fault-free run (open/stat errors, EIO after k bytes, truncation at every line boundary, ENOSPC/EROFS/EISDIR on writes, ENOSPC after k bytes, EIO at close, EPIPE on stdout), inserts every zero-length directive form at every line position, applies E1-E4 corruptions whose verdict is known, and samples textual corruptions and fault pairs; each run is one simulated CLI process of the real package under a step clock. Oracle: terminates within the step budget; failure => image byte-identical to its pre-state and never opened for writing; success => image written exactly once, completely; E1-E4 => rejected. Exhaustive per world for single faults, sampled across worlds: evidence, not proof.",
+  'text': "Per generated (ISA, program, options) world the check enumerates EVERY single I/O fault over every file-system event of the fault-free run (open/stat errors, EIO after k bytes, truncation at every line boundary, ENOSPC/EROFS/EISDIR on writes, ENOSPC after k bytes, EIO at close, EPIPE on stdout), inserts every zero-length directive form at every line position, applies E1-E4 corruptions whose verdict is known, and samples textual corruptions and fault pairs; each run is one simulated CLI process of the real package under a step clock. Also explored: file-system states around the output path (read-only image, missing directory, path is a directory), line- vs block-buffered stdout with EPIPE at every write, empty address windows, and a cross-process tier that repeats the known-verdict cases in real interpreters under python -O/-OO and real hash seeds. Oracle: terminates within the step budget (the fault-free run too); failure => image byte-identical to its pre-state and never successfully opened for writing; success => image written exactly once, completely; E1-E4 => rejected. Exhaustive per world for single faults, sampled across worlds: evidence, not proof.",
   'design_ref': 'DESIGN.md section 4 (C14), section 2',
   'note': "Trusts SimFS as a model of the Python-level I/O seam (cross-validated against the real file system by the C15 cross-process tier); C code (re) is invisible to the step clock - the one recorded finding there is decided by a wall clock.",
   'technique': 'deterministic simulation with fault injection: seeded worlds, exhaustive single-fault enumeration per world over the simulated file system, step-clock termination bound, minimised replay files',
@@ -51,14 +51,14 @@ CHECKS = {
  },
  'C17': {
   'category': 'exploration',
-  'text': "A logical multi-file program is generated once and materialised twice in the simulated file system: the split world (real #include lines, scoped labels, files spread over several include directories, includes wrapped in conditionals and mute regions) and the in-place reference (pasted text, scoped labels renamed to unique globals, zone brackets). Both are assembled by the real code; images, hex output and the values of all global labels must agree under every schedule (SimSet order of the include-directory set, -I order/spelling/duplicates/aliases). Negative worlds (cross-file file labels, local-label leaks both ways, double inclusion incl. via nested files, cycles, missing and ambiguous names) and I/O faults on include files must be rejected with the image untouched.",
+  'text': "A logical multi-file program is generated once and materialised twice in the simulated file system: the split world (real #include lines, scoped labels, files spread over several include directories, includes wrapped in conditionals and mute regions) and the in-place reference (pasted text, scoped labels renamed to unique globals, zone brackets). Both are assembled by the real code; images, hex output and the values of all global labels must agree under every schedule (SimSet order of the include-directory set, -I order/spelling/duplicates/aliases). Negative worlds (cross-file file labels, local-label leaks both ways, double inclusion incl. via nested files and through include guards, cycles, missing and ambiguous names incl. symlinked duplicates) and I/O faults on include files must be rejected with the image untouched; negative worlds are repeated in real interpreters under python -O/-OO. Schedules also cover a symlinked main file, the source directory supplied again, another cwd with decoy files, and CR LF files.",
   'design_ref': 'DESIGN.md section 4 (C17)',
   'note': "The reference is produced by the generator, not by an independent assembler: both worlds run the same real code. Excluded: same file under two names, include lines with trailing text.",
   'technique': 'deterministic simulation: split-vs-in-place differential on a simulated multi-directory file system under seeded set-order / -I schedules and injected include-file faults',
  },
  'C20': {
   'category': 'exploration',
-  'text': "Generated vocabularies (names that are prefixes of one another, contain '.', '_', digits, mixed case; with and without macros/registers/predefined names) are turned into both editor packages by the real generators running in the simulator under seeded schedules (SimSet order of keyword/mnemonic/register sets, directory listing order of temp and resource dirs, temp-dir name, clock) and in fresh interpreters under real hash seeds. Every file must be well-formed (JSON/YAML/plist/XML/zip), free of ##PLACEHOLDER## tokens, and a classification oracle built from the generated grammar itself must classify each vocabulary word in full with the right scope and no near-miss identifier as vocabulary.",
+  'text': "Generated vocabularies (names that are prefixes of one another, contain '.', '_', digits, mixed case; with and without macros/registers/predefined names) are turned into both editor packages by the real generators running in the simulator under seeded schedules (SimSet order of keyword/mnemonic/register sets, directory listing order of temp and resource dirs, temp-dir name, clock) and in fresh interpreters under real hash seeds. Every file must be well-formed (JSON/YAML/plist/XML/zip), free of ##PLACEHOLDER## tokens, and a classification oracle built from the generated grammar itself must classify each vocabulary word in full with the right scope (alone, in operand position and after another operation on the same line) and no near-miss identifier as vocabulary. Histories of two runs sharing the file system (earlier run failed / hit an I/O fault / was for a bigger or another ISA; ISA file older than the leftovers) must produce exactly the pristine outputs, and a single-fault tier over every written file requires that a run reporting success produced a complete package.",
   'design_ref': 'DESIGN.md section 4 (C20)',
   'note': "The oracle uses Python re and first-match-wins over the grammar's own rule order as the model of the editors' engines; one open finding (cross-class dotted prefix) is attributed only when every failing probe is explained by exactly its trigger.",
   'technique': 'deterministic simulation: generators run in a simulated file system under seeded set-order / listing-order / clock schedules and real hash seeds; outputs checked for well-formedness and by a grammar-derived classification oracle',
